@@ -1,9 +1,6 @@
 package zzsimrt
 
-import (
-	"sync"
-	"time"
-)
+import "sync"
 
 // Blocking operations between callers other than Lock and Once.Do, made
 // cooperative by the instrumenter (instr: blocking): the operation is tried
@@ -38,7 +35,7 @@ func Send[T any](site int, ch chan<- T, v T) {
 			return
 		default:
 		}
-		YieldBlocked(site)
+		YieldWaiting(site)
 	}
 }
 
@@ -63,7 +60,7 @@ func Recv2[T any](site int, ch <-chan T) (T, bool) {
 			return v, ok
 		default:
 		}
-		YieldBlocked(site)
+		YieldWaiting(site)
 	}
 }
 
@@ -76,7 +73,7 @@ func CondWait(site int, c *sync.Cond) {
 		return
 	}
 	c.L.Unlock()
-	YieldBlocked(site)
+	YieldWaiting(site)
 	LockerLock(site, c.L)
 }
 
@@ -100,14 +97,11 @@ func LockerLock(site int, l sync.Locker) {
 	}
 }
 
-// SelectBlocked is the default case the instrumenter adds to a select that
-// has none: no communication is ready. The turn holder gives the turn away;
-// any other goroutine just lets the processor go for a moment (its select spins
-// instead of sleeping: good enough for a simulation).
-func SelectBlocked(site int) {
-	if turnHolder() {
-		YieldBlocked(site)
-		return
-	}
-	time.Sleep(50 * time.Microsecond)
-}
+// TurnHolder reports whether the goroutine calling it is the simulated caller
+// that holds the turn (false outside a simulation and for goroutines the library
+// started itself): only then are blocking operations replaced by tries.
+func TurnHolder() bool { return turnHolder() }
+
+// SelectBlocked is the default case of the try-form of a select: no
+// communication is ready, the turn goes to somebody else (or, alone, time passes).
+func SelectBlocked(site int) { YieldWaiting(site) }
